@@ -239,13 +239,7 @@ func (in *interp) exec(s Stmt, env *Env, retT Type) (ctl, Value) {
 		if _, isRef := s.T.(TRef); isRef {
 			v = in.evalKeepRef(s.Init, env)
 		} else {
-			v = Copy(in.eval(s.Init, env))
-			if ti, ok := s.T.(TInt); ok {
-				if iv, ok := v.(IntV); ok && iv.T != ti {
-					// implicit lossless widening at a typed binding
-					v = IntV{ti, ti.Wrap(iv.V)}
-				}
-			}
+			v = in.coerce(Copy(in.eval(s.Init, env)), s.T)
 		}
 		env.vars[s.Name] = &Cell{v}
 	case *Assign:
@@ -383,9 +377,15 @@ func (in *interp) exec(s Stmt, env *Env, retT Type) (ctl, Value) {
 
 // coerce applies implicit lossless integer widening to the declared type.
 func (in *interp) coerce(v Value, t Type) Value {
-	if ti, ok := t.(TInt); ok {
-		if iv, ok := v.(IntV); ok && iv.T != ti {
-			return IntV{ti, ti.Wrap(iv.V)}
+	switch tt := t.(type) {
+	case TInt:
+		if iv, ok := v.(IntV); ok && iv.T != tt {
+			return IntV{tt, tt.Wrap(iv.V)}
+		}
+	case TDyn:
+		// an array literal in a []T context is a dynamic array
+		if a, ok := v.(*ArrV); ok {
+			return DynV{&DynObj{E: a.E}}
 		}
 	}
 	return v
